@@ -566,6 +566,11 @@ func (d *Decls) declareConst(name, sortName string) {
 				if lo, hi, isInt := intRange(sl.Elem()); isInt {
 					d.axioms = append(d.axioms, fmt.Sprintf("(forall ((r Int) (i Int)) (! (and (<= %s (select (slc-arr (select %s r)) i)) (<= (select (slc-arr (select %s r)) i) %s)) :pattern ((select (slc-arr (select %s r)) i))))", lo, name, name, hi, name))
 				}
+				// generated protobuf messages: elements of a repeated message field are never nil
+				// (the decoder allocates them; the code base only builds them with literals)
+				if _, isPtr := sl.Elem().Underlying().(*types.Pointer); isPtr && strings.Contains(key, "_pb_") {
+					d.axioms = append(d.axioms, fmt.Sprintf("(forall ((r Int) (j Int)) (! (=> (and (<= (slc-off (select %s r)) j) (< j (+ (slc-off (select %s r)) (slc-len (select %s r))))) (not (= (select (slc-arr (select %s r)) j) 0))) :pattern ((select (slc-arr (select %s r)) j))))", name, name, name, name, name))
+				}
 			}
 		}
 	}
